@@ -114,6 +114,7 @@ func credentialOfParam(c *Ctx, fn *ssa.Function, idx int, depth int) string {
 }
 
 func runC10(c *Ctx, r *Report) {
+	importFoundation(c, r, "C10", "transport-pipe")
 	importFoundation(c, r, "C10", "read-loop")
 	importFoundation(c, r, "C10", "queue")
 	r.Rule("C10/ansi-bounded", "what the read loop strips cannot span the login prompt: no unbounded repetition of the escape-sequence pattern admits ESC or newline", 1)
